@@ -182,7 +182,7 @@ class GradCheckLosses:
     symbolic = False
     n_bounded = {"quick": 1, "thorough": 5}
 
-    LOSSES = ("mse_loss", "ssd_loss", "huber_loss", "smooth_l1_loss", "ncc_loss", "lcc_loss", "wlcc_loss", "mi_loss", "nmi_loss", "dice_loss", "tversky_loss",
+    LOSSES = ("ClosestPointDistance", "LandmarkPointDistance", "mse_loss", "ssd_loss", "huber_loss", "smooth_l1_loss", "ncc_loss", "lcc_loss", "wlcc_loss", "mi_loss", "nmi_loss", "dice_loss", "tversky_loss",
               "grad_loss", "bending_loss", "curvature_loss", "diffusion_loss", "divergence_loss", "elasticity_loss", "total_variation_loss",
               "bspline_bending_loss", "inverse_consistency_loss")
 
@@ -200,8 +200,22 @@ class GradCheckLosses:
         gen = torch.Generator().manual_seed(K.rng.randint(0, 1 << 30))
         K.env["seed"] = gen.initial_seed()
         shape = (7, 8) if D == 2 else (6, 5, 6)
-        fn = getattr(L, name)
         dt = torch.float64
+        if name in ("ClosestPointDistance", "LandmarkPointDistance"):
+            # point set distances (modules; they cast to float32): every point set receives its gradient; points are kept
+            # 0.2-0.4 apart from their matches so that no closest-point assignment switches
+            from deepali.losses.pointset import ClosestPointDistance, LandmarkPointDistance
+
+            loss = ClosestPointDistance() if name == "ClosestPointDistance" else LandmarkPointDistance()
+            base = torch.rand((2, 9, D), generator=gen) * 6
+            x = base + 0.3 * torch.nn.functional.normalize(torch.randn((2, 9, D), generator=gen), dim=-1)
+            y = base.clone()
+            z = base + 0.25 * torch.nn.functional.normalize(torch.randn((2, 9, D), generator=gen), dim=-1)
+            directional_check(K, name, lambda a, b: loss(a, b), [x, y], torch.float32)
+            if name == "ClosestPointDistance":
+                directional_check(K, name + "[two other sets]", lambda a, b, c: loss(a, b, c), [x, y, z], torch.float32)
+            return
+        fn = getattr(L, name)
         if name in ("mse_loss", "ssd_loss", "huber_loss", "smooth_l1_loss", "ncc_loss", "lcc_loss", "wlcc_loss", "mi_loss", "nmi_loss"):
             a = torch.rand((2, 1) + shape, generator=gen, dtype=dt)
             b = (0.5 * a + 0.5 * torch.rand((2, 1) + shape, generator=gen, dtype=dt))
